@@ -219,33 +219,51 @@ def iconv_cli(frm, to, data):
     return ('other', err.strip()[:200], p.stdout)
 
 
-def py_decode(name, b):
-    """('ok', text) | ('err', start, end) | ('crash', what)"""
+_HANGS = {}      # (codec, direction) -> number of calls that did not finish: after 3 the codec is not called again in this process
+
+
+def _guarded(key, fn):
+    if _HANGS.get(key, 0) >= 3:
+        return ('hang', 'not called: three earlier calls did not finish')
     try:
-        r = b.decode(name)
-        if not isinstance(r, str):
-            return ('crash', 'not a str')
-        return ('ok', r)
-    except UnicodeDecodeError as e:
-        return ('err', e.start, e.end)
+        with common.inner_deadline(5):
+            return fn()
     except common.CaseTimeout:
-        raise
-    except Exception as e:  # noqa
-        return ('crash', type(e).__name__ + ': ' + str(e)[:100])
+        _HANGS[key] = _HANGS.get(key, 0) + 1
+        return ('hang', 'did not finish within 5 s')
+
+
+def py_decode(name, b):
+    """('ok', text) | ('err', start, end) | ('crash', what) | ('hang', what)"""
+    def go():
+        try:
+            r = b.decode(name)
+            if not isinstance(r, str):
+                return ('crash', 'not a str')
+            return ('ok', r)
+        except UnicodeDecodeError as e:
+            return ('err', e.start, e.end)
+        except common.CaseTimeout:
+            raise
+        except Exception as e:  # noqa
+            return ('crash', type(e).__name__ + ': ' + str(e)[:100])
+    return _guarded((name, 'D'), go)
 
 
 def py_encode(name, t):
-    try:
-        r = t.encode(name)
-        if not isinstance(r, bytes):
-            return ('crash', 'not bytes')
-        return ('ok', r)
-    except UnicodeEncodeError as e:
-        return ('err', e.start, e.end)
-    except common.CaseTimeout:
-        raise
-    except Exception as e:  # noqa
-        return ('crash', type(e).__name__ + ': ' + str(e)[:100])
+    def go():
+        try:
+            r = t.encode(name)
+            if not isinstance(r, bytes):
+                return ('crash', 'not bytes')
+            return ('ok', r)
+        except UnicodeEncodeError as e:
+            return ('err', e.start, e.end)
+        except common.CaseTimeout:
+            raise
+        except Exception as e:  # noqa
+            return ('crash', type(e).__name__ + ': ' + str(e)[:100])
+    return _guarded((name, 'E'), go)
 
 
 def has_surrogate(t):
@@ -261,15 +279,11 @@ def oracle_decode_items(payload):
     fails = []
     cnt = {'ok': 0, 'err': 0}
     oks = []
-    hangs = 0
     for b in items:
-        try:
-            with common.inner_deadline(5):
-                r = py_decode(name, b)
-        except common.CaseTimeout:
-            fails.append(('hang', name, list(b), 'decoding these bytes did not finish within 5 s'))
-            hangs += 1
-            if hangs >= 3:
+        r = py_decode(name, b)
+        if r[0] == 'hang':
+            fails.append(('hang', name, list(b), 'decoding these bytes: ' + r[1]))
+            if _HANGS.get((name, 'D'), 0) >= 3:
                 break
             continue
         if r[0] == 'crash':
@@ -326,15 +340,11 @@ def oracle_encode_items(payload):
     fails = []
     cnt = {'ok': 0, 'err': 0}
     oks = []
-    hangs = 0
     for t in items:
-        try:
-            with common.inner_deadline(5):
-                r = py_encode(name, t)
-        except common.CaseTimeout:
-            fails.append(('hang', name, [ord(c) for c in t], 'encoding these characters did not finish within 5 s'))
-            hangs += 1
-            if hangs >= 3:
+        r = py_encode(name, t)
+        if r[0] == 'hang':
+            fails.append(('hang', name, [ord(c) for c in t], 'encoding these characters: ' + r[1]))
+            if _HANGS.get((name, 'E'), 0) >= 3:
                 break
             continue
         if r[0] == 'crash':
